@@ -103,7 +103,7 @@ Definition step (st : srv * Z) (o : yop) : option (srv * Z) :=
   match o with
   | YStore ord cu k a u v dur lease =>
       Some (set_cache s cu (store_new (cache_of s cu)
-              (mk_entry ord k (pol_of (PSome a u v)) (Some (now + dur)) lease)), now)
+              (mk_entry ord k (pol_of (PSome a u v)) (Some (now + go_secs dur)) (go_secs lease))), now)
   | YStoreP ord cu k p dur lease =>
       Some (set_cache s cu (store_new (cache_of s cu) (mk_entry ord k (pol_of p) (Some (now + dur)) lease)), now)
   | YStoreRaw ord cu k p lease =>
@@ -166,7 +166,8 @@ Definition n12 : N := 12%N. Definition n16 : N := 16%N. Definition n32 : N := 32
 Definition z0 : Z := 0. Definition z1 : Z := 1. Definition z2 : Z := 2. Definition z3 : Z := 3.
 Definition z4 : Z := 4. Definition z5 : Z := 5. Definition z6 : Z := 6. Definition z7 : Z := 7.
 Definition z8 : Z := 8. Definition z9 : Z := 9.
-Definition z500 : Z := 500. Definition z1500 : Z := 1500. Definition z3000 : Z := 3000.
+Definition z500 : Z := 500. Definition zm500 : Z := -500. Definition zm1500 : Z := -1500.
+Definition zhuge : Z := 1099511627776. Definition z1500 : Z := 1500. Definition z3000 : Z := 3000.
 Definition z2100 : Z := 2100. Definition z950 : Z := 950. Definition z421 : Z := 421. Definition z60007 : Z := 60007.
 
 Fixpoint mism (i : nat) (cs : list case) : list nat :=
